@@ -1,2 +1,3 @@
+@voltage.setter
 def spec(self, value):
     self.voltage_.value = value
